@@ -13,12 +13,15 @@ package handler
 
 import (
 	"log/slog"
+
+	"github.com/goblimey/go-ntrip/rtcm/pushback"
 )
 
 func init() {
 	verifRegister("VerifC15_HistoryIndependent", VerifC15_HistoryIndependent)
 	verifRegister("VerifC15_RepeatedDisplay", VerifC15_RepeatedDisplay)
 	verifRegister("VerifC15_CopiesIndependent", VerifC15_CopiesIndependent)
+	verifRegister("VerifC15_RetainedMessages", VerifC15_RetainedMessages)
 }
 
 // c15Frame: a CRC-valid frame of a chosen kind with symbolic contents;
@@ -167,4 +170,50 @@ func VerifC15_CopiesIndependent() {
 	verifAssert("other-copy-raw-bytes-untouched", verifBytesEq(b.RawData, saved))
 	verifAssert("other-copy-fields-untouched", verifAnd(verifStrEq(b.ErrorMessage, errBefore), verifAnd(b.Readable == nil, b.MessageType == m.MessageType)))
 	verifAssert("other-copy-displays-the-same", verifStrEq(b.String(), textA))
+}
+
+// A message fetched from a stream must stay what it is while later frames
+// are fetched, by the same handler or by another one (no buffer reused
+// between fetches, no package-level scratch space behind RawData).
+func VerifC15_RetainedMessages() {
+	verifOwnPanics()
+	verifHexModel()
+	other := verifParam("other-handler", 0, 1) == 1
+	lead := verifParam("leading-junk", 0, 1)
+	var first []byte
+	if lead == 1 {
+		j := verifBytes("j", 2)
+		verifAssume(j[0] != 0xd3)
+		verifAssume(j[1] != 0xd3)
+		first = j
+	} else {
+		p := verifBytes("a", 3)
+		c07SetBits(p, 0, 12, 1230)
+		first = vfFrame(p)
+	}
+	q := verifBytes("b", 4)
+	c07SetBits(q, 0, 12, 1230)
+	second := vfFrame(q)
+	verifWitness("reached")
+	h1 := New(verifTimeOf(vfTuesdayNoon), slog.LevelInfo)
+	stream := append(append([]byte(nil), first...), second...)
+	pb := pushback.New(c01Source(stream))
+	m1, _ := h1.FetchNextMessageFrame(pb)
+	if m1 == nil {
+		return
+	}
+	saved := append([]byte(nil), m1.RawData...)
+	text := m1.String()
+	if other {
+		h2 := New(verifTimeOf(vfTuesdayNoon), slog.LevelInfo)
+		pb2 := pushback.New(c01Source(second))
+		_, _ = h2.FetchNextMessageFrame(pb2)
+	} else {
+		_, _ = h1.FetchNextMessageFrame(pb)
+	}
+	verifWitness("returned")
+	verifAssert("first-message-is-the-first-segment", verifBytesEq(saved, first))
+	verifAssert("held-message-bytes-survive-later-fetches", verifBytesEq(m1.RawData, saved))
+	m1.Readable = nil
+	verifAssert("held-message-text-survives-later-fetches", verifStrEq(m1.String(), text))
 }
